@@ -161,7 +161,7 @@ pub fn run(modelrun: &str) {
         let mode = if parts[2].starts_with('C') { "C" } else { "O" };
         let mut lvl = PriceLevel::new(price);
         let mut fork: Option<PriceLevel> = None;
-        let generator = UuidGenerator::new(Uuid::parse_str(NS_MAIN).unwrap());
+        let mut generator = UuidGenerator::new(Uuid::parse_str(NS_MAIN).unwrap());
         let fork_gen = UuidGenerator::new(Uuid::parse_str(NS_FORK).unwrap());
         model.call(&format!("NEW {price} {mode}"));
         let mut dead = false;
@@ -276,6 +276,14 @@ pub fn run(modelrun: &str) {
                     }
                 }
                 "RESYNC" => ("resync".to_string(), Some("RESYNC".to_string())),
+                "GEN" => {
+                    // a generator that has already issued n ids (built through its Deserialize impl)
+                    let n: u64 = t[1].parse().unwrap();
+                    match serde_json::from_str::<UuidGenerator>(&format!("{{\"namespace\":\"{NS_MAIN}\",\"counter\":{n}}}")) {
+                        Ok(g) => { generator = g; ("gen".to_string(), Some(format!("GEN {n}"))) }
+                        Err(_) => ("panic".to_string(), Some(format!("GEN {n}"))),
+                    }
+                }
                 "ADDTX" => {
                     // MatchResult built incrementally: new(taker, initial) then add_transaction for each quantity
                     let init: u64 = t[1].parse().unwrap();
